@@ -708,9 +708,12 @@ def h_view(axis_rule=None):
         elif axis_rule == 'transpose':
             axes = argval(pos, kw, 1, 'axes')
             ac = axis_const(axes) if axes is not None else None
+            # a permutation that is not known is not `no permutation given` (which reverses the axes); TOP is None in this module, so keep a flag
+            unknown_axes = axes is not None and ac is None and not (axes.is_const and const_of(axes) is None)
             if len(pos) > 2:
                 ac = tuple(const_of(p) for p in pos[1:]) if all(p.is_const for p in pos[1:]) else TOP
-            if x.shape is not None and not x.shape.ell:
+                unknown_axes = ac is TOP
+            if x.shape is not None and not x.shape.ell and not unknown_axes:
                 if ac is None:
                     shape = Shape(False, tuple(reversed(x.shape.dims)))
                 elif ac is not TOP and isinstance(ac, tuple) and len(ac) == len(x.shape.dims):
